@@ -268,13 +268,13 @@ def reopen_case(rng, acc, d, clsname):
 
 
 def units(tier, seed):
-    fill = 4 if tier == "quick" else 50
+    fill = 4 if tier == "quick" else 30
     us = []
     for f in range(fill):
         for clsname in RE.CLS:
             for neigh in (False, True):
                 us.append({"kind": "matrix", "seed": seed * 1009 + f, "cls": clsname, "neigh": neigh})
-    nre = 160 if tier == "quick" else 4000
+    nre = 160 if tier == "quick" else 2400
     for i in range(0, nre, 10):
         us.append({"kind": "reopen", "seed": seed * 4001 + i, "n": 10, "cls": list(RE.CLS)[(i // 10) % 2]})
     return us
